@@ -745,7 +745,7 @@ _witness_cache = {}
 
 
 def witness_tool(pid, w):
-    return 'listener' if (pid in LISTENER_PROPS and (w or '').startswith('server config')) else 'scenarios'
+    return 'listener' if (w or '').startswith('server config') else 'scenarios'
 
 
 def find_witness(pid, tier):
@@ -780,6 +780,15 @@ def find_witness(pid, tier):
         for l in p.stdout.split('\n'):
             if l.startswith('WITNESS property=C09 '):
                 return l.split('first: ', 1)[-1]
+    if pid == 'C13':
+        # C13 also has a listener-level aspect (which clean policy a worker is started with): ask the real servers as well
+        for tmo in ('400', '3000'):
+            p = subprocess.run(['cargo', 'run', '--offline', '-q', '--release', '--bin', 'listener', '--', 'C13'], cwd=replay_dir(),
+                               env=dict(os.environ, CARGO_NET_OFFLINE='true', VERIF_NET_TIMEOUT_MS=tmo), stdout=subprocess.PIPE, stderr=subprocess.DEVNULL, text=True)
+            hits = [l for l in p.stdout.split('\n') if l.startswith('WITNESS property=C13 ')]
+            if not hits:
+                return None
+        return hits[0].split('first: ', 1)[-1]
     return None
 
 
